@@ -572,3 +572,39 @@ def run_scale_positions(prog, rep):
         probs.append('paths do not cover scaled and unscaled positions (%d/%d)' % (nscaled, nplain))
     rule.check(not probs, 'scalePositions|factor', rep.where(f), f.label(), 'factor = getSIScaling(units[i], dim_unit), or 1 when a unit is missing/"none" (%d paths)' % len(res), '; '.join(sorted(set(probs))[:2]))
     return rule
+
+
+# function-static state of the library; each confirmed by reading
+STATIC_STATE = {
+    ('nix::hdf5::linkTypeToString', 'type_names'): 'constant table of the enumerator names, never written after its initialisation',
+    ('nix::string_to_data_type', 'type_map'): 'constant name -> DataType table, never written after its initialisation',
+    ('nix::util::createId', 'gen'): 'the id generator itself (R-ID decides what it is seeded from)',
+}
+
+
+def run_no_static_state(prog, rep):
+    """no library function keeps function-static (or thread_local) state that it writes after initialisation: such state outlives
+    the file content it was computed from (resize, new ticks, another handle, another file with the same id)"""
+    rule = rep.rule('R-NOSTATIC', 'library functions keep no function-static / thread_local state that is written after its initialisation (the three tabled tables / generators are the only static locals)', floor=2)
+    n = 0
+    for f in sorted(prog.funcs.values(), key=lambda f: (f.file, f.line)):
+        if f.body is None or not f.file or prog.rel(f.file).startswith('/') or '/test' in f.file:
+            continue
+        statics = {}
+        for r in f.walk():
+            if r.k == 'ref' and r.decl.get('kind') == 'staticlocal':
+                statics[r.decl.get('lid')] = r.decl.get('name')
+        for lid, name in sorted(statics.items(), key=lambda kv: kv[1]):
+            n += 1
+            key = '%s|%s' % (re.sub(r'<.*', '', f.q), name)
+            writes = Sem(prog).mods(f).get(lid) or []
+            tab = STATIC_STATE.get((re.sub(r'<.*', '', f.q), name))
+            if writes and not (tab and name == 'gen'):
+                rule.bad(key, rep.where(writes[0]), f.label(), 'static local %s is written at run time (%s): what it remembers is not refreshed when the entity it was computed from changes (resize, new descriptors, other handle, other file)' % (name, writes[0].src(40)))
+            elif tab:
+                rule.ok(key, rep.where(f), f.label(), 'tabled: ' + tab, nontrivial=False)
+            else:
+                rule.bad(key, rep.where(f), f.label(), 'static local %s is not in the table of reviewed function-static state' % name)
+    if n < 2:
+        raise AnalysisBroken('R-NOSTATIC: only %d static locals seen' % n)
+    return rule
